@@ -2,7 +2,9 @@
    Property theorems only; models in Pack/PackModel.v (declaration lists, token lists with spans and hygiene sites,
    the ascent_run! / Default code paths with the index build after the initialisers as an explicit, switchable step, the
    run_timeout guard, the timing wrappers) over the engine model Engine/Eval.v, and Pack/PackLatModel.v (the same run block
-   over LatEngine/LatEval.v, programs with lattices); proofs in Pack/PackProofs.v, Pack/PackLatProofs.v.
+   over LatEngine/LatEval.v, programs with lattices), and Pack/PackAttrModel.v (parse_ascent_program with its parse state:
+   inner attributes / signature / items, the include path, AscentConfig); proofs in Pack/PackProofs.v, Pack/PackLatProofs.v,
+   Pack/PackAttrProofs.v.
 
    These are small theorems about the packaging LOGIC.  That rustc, macro_rules expansion, span printing, cargo
    feature resolution and the generated glue agree with the models is carried by the tie (gen/props/c09.py): every
@@ -30,6 +32,8 @@ From AV Require LatEngine.LatEval.
 From AV Require Import LatEngine.LatVocab.
 From AV Require Import Pack.PackLatModel.
 From AV Require Import Pack.PackLatProofs.
+From AV Require Import Pack.PackAttrModel.
+From AV Require Import Pack.PackAttrProofs.
 Import ListNotations.
 Open Scope Z_scope.
 
@@ -167,6 +171,54 @@ Theorem c09_include_is_splice : forall (srcs : nat -> list tok) (ts : list tok) 
   expand fuel srcs ts = Some (paste srcs ts).
 Proof. exact include_is_splice. Qed.
 
+(* ---- include_source! inside the parse it interrupts: program-level inner attributes, signature, items ---- *)
+(* Pack/PackAttrModel.v: parse_ascent_program with its parse state.  The input is  #![..]*  [signature]  items ; at an include
+   the parsed program is thrown away and only before_tokens / after_tokens reach the re-invocation, so whatever was parsed —
+   `#![ds(..)]`, `#![measure_rule_times]`, `#![generate_run_timeout]`, `#![inter_rule_parallelism]` included — must be in
+   `before`.  For every input (any attributes, with or without a signature, includes at ANY position, the very first item
+   included, any number of them) and all sources without includes: the chain of invocations ends in exactly the parse of the
+   pasted text — the same attributes, signature and items, or the same parse error *)
+Theorem c09_include_is_splice_with_attributes : forall (srcs : nat -> list xtok) (ts : list xtok) (fuel : nat),
+  (forall p, no_xinc (srcs p) = true) ->
+  (count_xinc ts < fuel)%nat ->
+  xexpand fuel srcs ts = Some (parse_program (xpaste srcs ts)).
+Proof. exact attr_include_is_splice. Qed.
+(* hence the same configuration (AscentConfig::new): the default data structure of every relation without its own #[ds],
+   whether run_timeout is generated, whether rule times are measured; serial and parallel macros alike *)
+Theorem c09_include_same_configuration : forall (srcs : nat -> list xtok) (ts : list xtok) (fuel : nat) (is_parallel : bool),
+  (forall p, no_xinc (srcs p) = true) ->
+  (count_xinc ts < fuel)%nat ->
+  outcome_config is_parallel (xexpand fuel srcs ts) = outcome_config is_parallel (Some (parse_program (xpaste srcs ts))).
+Proof. exact attr_include_config. Qed.
+(* and the inner attributes written at the top of a program are attributes of the program that is finally compiled,
+   whatever follows them (`rest` may start with an include and hold no signature) *)
+Theorem c09_include_keeps_inner_attributes : forall (srcs : nat -> list xtok) (A : list attr) (rest : list xtok) (fuel : nat) attrs sig items,
+  (forall p, no_xinc (srcs p) = true) ->
+  (count_xinc rest < fuel)%nat ->
+  xexpand fuel srcs (map XAttr A ++ rest) = Some (OProg attrs sig items) ->
+  exists more, attrs = A ++ more.
+Proof. exact attr_include_keeps_inner_attributes. Qed.
+(* about a VARIANT only (not the code's): `before` taken to be empty "when no signature, relation, rule or macro has been
+   parsed yet" forgets the attributes: a program that opens with an include below `#![ds(7)] #![measure_rule_times]
+   #![generate_run_timeout]` is compiled with the default configuration, the pasted text is not; the code as it is agrees
+   with the pasted text on that input *)
+Theorem c09_include_shortcut_refuted :
+  exists srcs ts, (forall p, no_xinc (srcs p) = true)
+    /\ outcome_config false (xexpand_when true 5 srcs ts)
+       = Some {| c_measure := false; c_timeout := false; c_inter := false; c_default_ds := 0%nat |}
+    /\ outcome_config false (Some (parse_program (xpaste srcs ts)))
+       = Some {| c_measure := true; c_timeout := true; c_inter := false; c_default_ds := 7%nat |}
+    /\ outcome_config false (xexpand 5 srcs ts) = outcome_config false (Some (parse_program (xpaste srcs ts))).
+Proof. exact attr_shortcut_refuted. Qed.
+Example c09_example_attr_include :
+  xexpand 5 (fun p => match p with O => [xk 1] | _ => [xk 2] end) [XAttr (ADs 3); XAttr ATimeout; xinc 0; xk 9; xinc 1]
+  = Some (OProg [ADs 3; ATimeout] [] [{| t_span := 1; t_site := 0; t_sym := TOther 1 |}; {| t_span := 9; t_site := 0; t_sym := TOther 9 |}; {| t_span := 2; t_site := 0; t_sym := TOther 2 |}])
+  /\ xexpand 5 (xsrc_of [XAttr AMeasure; xk 1]) [XAttr (ADs 3); xinc 0] = Some (OProg [ADs 3; AMeasure] [] [{| t_span := 1; t_site := 0; t_sym := TOther 1 |}])
+  /\ xexpand 5 (xsrc_of [XAttr AMeasure; xk 1]) [XAttr (ADs 3); XSig 0; xinc 0] = Some OError
+  /\ config_of false [ADs 3; ADs 4] = None /\ config_of false [AInterRule] = None
+  /\ config_of true [AInterRule; AMeasure] = Some {| c_measure := true; c_timeout := false; c_inter := true; c_default_ds := 0 |}.
+Proof. exact attr_include_example. Qed.
+
 (* about the OLD span-based split only (before /repo commit 9a74b6c, known_findings.json entry
    include_source_drops_prefix_when_spans_coincide, status fixed): with all tokens printing one span everything before
    the include was dropped; the current positional split yields the pasted text on that input *)
@@ -214,5 +266,7 @@ Print Assumptions c09_lattice_init_is_input. Print Assumptions c09_lattice_witho
 Print Assumptions c09_run_is_timeout_max. Print Assumptions c09_run_via_timeout_is_run.
 Print Assumptions c09_timing_flags_inert.
 Print Assumptions c09_include_is_splice. Print Assumptions c09_old_span_split_refuted.
+Print Assumptions c09_include_is_splice_with_attributes. Print Assumptions c09_include_same_configuration. Print Assumptions c09_include_keeps_inner_attributes.
+Print Assumptions c09_include_shortcut_refuted. Print Assumptions c09_example_attr_include.
 Print Assumptions c09_include_hygiene_ok. Print Assumptions c09_include_hygiene_refuted.
 Print Assumptions c09_example_dedup_vectors. Print Assumptions c09_example_timeout_fires. Print Assumptions c09_example_ascent_run_tc.
